@@ -451,8 +451,7 @@ def _sigma(ev, node):
     lo, hi, fn = ev.e(node.args[0]), ev.e(node.args[1]), ev.e(node.args[2])
     lo_t, hi_t = to_int_term(lo), to_int_term(hi)
     body = lambda k: to_real_term(fn(k))
-    ss = find_or_make_sum(ev.ex, ev.st, body, lo_t, hi_t)
-    return SFloat(ss.fn(lo_t, hi_t))
+    return SFloat(find_or_make_sum(ev.ex, ev.st, body, lo_t, hi_t))
 
 
 @specfn("Rnd")
